@@ -27,7 +27,7 @@ VALUES: dict[str, list[str]] = {
     'drm': ['all', 'playready', 'clearkey', 'marlin', 'playready-pro', 'playready-cenc-moov', 'clearkey-moov,marlin', 'all-cenc', 'none'],
     'drmloc': ['pro', 'cenc', 'moov', 'cenc-pro'],
     'bugs': ['saio'],
-    'events': ['ping', 'scte35', 'ping,scte35'],
+    'events': ['ping', 'scte35', 'ping,scte35', 'scte35,ping'],
     'failures': ['1', '3', '0'],
     'verr': ['404=5', '503=7,504=9'],
     'aerr': ['404=5'],
